@@ -45,6 +45,7 @@ let point_name = function
   | PUpdU -> "c12.upd.U" | PUpdsubU -> "c12.updsub.U" | PCmplU -> "c12.cmpl.U" | PErrU -> "c12.err.U"
   | PDoneU -> "c12.done.U" | PCloseU -> "c12.close.U" | PX0 -> "c12.upd.x0" | PW -> "c12.upd.w"
   | PCmplY -> "c12.cmpl.y" | PErrY -> "c12.err.y" | PExtHook -> "ext.hook" | PExtStart -> "ext.start"
+  | PWr -> "ext.w"
 
 type mstatus = At of string | Fin | Blk | Panic
 let show_status = function At p -> "(at " ^ p ^ ")" | Fin -> "(fin)" | Blk -> "(blk)" | Panic -> "(panic)"
@@ -78,6 +79,7 @@ let visible (nw : obs list) (old : obs list) : string list =
   let cancelled t l = List.exists (function OCancel t' -> t' = t | _ -> false) l in
   List.concat_map (function
       | OW (s, c) -> [Printf.sprintf "(w %d %s)" (ii s) (wcall_str c)]
+      | OWE (s, c) -> [Printf.sprintf "(we %d %s)" (ii s) (wcall_str c)]
       | OStart (t, k) ->
         Printf.sprintf "(start %d %d)" (ii t) (ii k) :: (if cancelled t old then [Printf.sprintf "(cancel %d)" (ii t)] else [])
       | OCancel t -> if started t nw || started t old then [Printf.sprintf "(cancel %d)" (ii t)] else []
@@ -101,7 +103,7 @@ let handle (x : sexp) : (string * string) list =
       match i with
       | IHookJ (s, _) | IHookS (s, _) -> [hookx s]
       | IStart (s, _) -> [match cfg s with Some c when c.start = "fail" -> XFail | _ -> XOk]
-      | ICELoop (_, l) | IHbSubs l -> List.map (fun s -> XPick s) l
+      | ICELoop (_, l) | IHbSubs l | IErrLoop l | ICloseLoop l -> List.map (fun s -> XPick s) l
       | IHbTrigs (ks, _) -> List.map (fun k -> XPick k) ks
       | IWaitSync _ -> [XPick (ni 0); XPick (ni 1); XPick (ni 2)]
       | IWaitSync2 _ -> [XPick (ni 1); XPick (ni 2)]
@@ -115,9 +117,14 @@ let handle (x : sexp) : (string * string) list =
          | IYield p when not first -> [(st, At (point_name p))]
          | _ ->
            let succ = List.filter_map (fun x -> stp st (AStep (th, x))) (exts_for st i) in
-           if succ = [] then [(st, Blk)] else List.concat_map (fun st' -> advance st' th false (fuel - 1)) succ) in
+           (* closeSubs walks its slice in a fixed (map iteration) order: it may sit at a subscriber whose writeMu is
+              held although another one of the slice is free *)
+           let may_wait = (match i with ICloseLoop l -> List.exists (fun s -> List.mem s st.wlk) l | _ -> false) in
+           if succ = [] then [(st, Blk)]
+           else (if may_wait then [(st, Blk)] else []) @ List.concat_map (fun st' -> advance st' th false (fuel - 1)) succ) in
     let enabled (st : state) (th : tname) : bool =
       match lookup_thr th st.threads with
+      | Some (ICloseLoop l :: _) -> List.for_all (fun s -> not (List.mem s st.wlk)) l
       | Some (i :: _) -> List.exists (fun x -> stp st (AStep (th, x)) <> None) (exts_for st i)
       | _ -> false in
     let status_eq (name : string) (m : mstatus) (i : mstatus) : bool =
@@ -131,10 +138,11 @@ let handle (x : sexp) : (string * string) list =
     List.iter (function
         | L [_; status; L (A "obs" :: obs); _] ->
           List.iter (function
-              | L (A "w" :: A s :: A kind :: A e :: rest) ->
+              | L (A ("w" | "we" as tag) :: A s :: A kind :: A e :: rest) ->
                 let s = int_of_string s and e = int_of_string e in
-                impl_log := OW (ni s, wcall_of kind e) :: !impl_log;
-                if rest <> [] then add_spec (Printf.sprintf "C12:no_write_after_completed (w %d %s) after the subscriber was gone" s kind)
+                impl_log := (if tag = "w" then OW (ni s, wcall_of kind e) else OWE (ni s, wcall_of kind e)) :: !impl_log;
+                if rest <> [] then add_spec (Printf.sprintf "C12:no_write_after_completed (%s %d %s): writer call %s after completion was signalled" tag s kind
+                                               (if tag = "w" then "entered" else "still in progress / returning"))
               | L [A "gone"; A s] -> let s = int_of_string s in
                 if not (List.mem s !gone) then (gone := s :: !gone; impl_log := OClosed (ni s) :: !impl_log)
               | L [A "start"; A s; A k] -> impl_log := OStart (ni (int_of_string s), ni (int_of_string k)) :: !impl_log
@@ -149,6 +157,11 @@ let handle (x : sexp) : (string * string) list =
           if parse_status status = Panic then add_spec "C12:completed_once actor panicked"
         | _ -> ()) steps;
     let known = ref ["hb"] in
+    let istat : (string, mstatus) Hashtbl.t = Hashtbl.create 16 in     (* last status the implementation reported per actor *)
+    let name_of (tn : tname) : string =
+      match tn with TCl n -> "cl:" ^ string_of_int (ii n) | TSrc n -> "src:" ^ string_of_int (ii n)
+                  | TSt n -> "st:" ^ string_of_int (ii n) | TCh n -> "ch:" ^ string_of_int (ii n)
+                  | THb -> "hb" | TSh -> "sh" in
     let alts = ref [init] in
     let result = ref [] in
     let nontrivial = ref false in
@@ -174,23 +187,26 @@ let handle (x : sexp) : (string * string) list =
           (* implementation observables of this step (for the comparison) *)
           let iobs_cmp = ref [] in
           List.iter (function
-              | L (A "w" :: A s :: A kind :: A e :: _) ->
+              | L (A ("w" | "we" as tag) :: A s :: A kind :: A e :: _) ->
                 let s = int_of_string s and e = int_of_string e in
-                iobs_cmp := (`W (s, wcall_str (wcall_of kind e))) :: !iobs_cmp
+                iobs_cmp := (`W (tag, s, wcall_str (wcall_of kind e))) :: !iobs_cmp
               | L [A "start"; A s; A k] -> iobs_cmp := (`Start (int_of_string s, int_of_string k)) :: !iobs_cmp
               | L [A "cancel"; A s] -> iobs_cmp := (`Cancel (int_of_string s)) :: !iobs_cmp
               | L [A ("subinc" | "subdec" | "triginc" | "trigdec" as k); A n] -> iobs_cmp := (`S ("(" ^ k ^ " " ^ n ^ ")")) :: !iobs_cmp
               | _ -> ()) obs;
           let impl_strings (st : state) =
             List.sort compare (List.map (function
-                | `W (s, c) -> Printf.sprintf "(w %d %s)" s c
+                | `W (tag, s, c) -> Printf.sprintf "(%s %d %s)" tag s c
                 | `Start (s, k) -> Printf.sprintf "(start %d %d)" (sid_tid st s) k
                 | `Cancel s -> Printf.sprintf "(cancel %d)" (sid_tid st s)
                 | `S x -> x) !iobs_cmp) in
           let bystanders = List.filter_map (function
               | L [A n; stx] -> if not (List.mem n !known) then known := n :: !known;
-                if n = "hb" then None else Some (n, parse_status stx)
+                (* the ticker goroutine re-parking for its next tick is not a step of the model's heartbeat thread *)
+                if n = "hb" && parse_status stx = At "c12.hb.R" then Some (n, Fin) else Some (n, parse_status stx)
               | _ -> None) chs in
+          Hashtbl.replace istat name istatus;
+          List.iter (fun (n, stx) -> Hashtbl.replace istat n stx) bystanders;
           let why = ref "" in
           let next = List.concat_map (fun (st : state) ->
               let loglen = List.length st.log in
@@ -225,19 +241,33 @@ let handle (x : sexp) : (string * string) list =
                     let okk = status_eq name m istatus in
                     if not okk then why := Printf.sprintf "actor %s: model %s impl %s" name (show_status m) (show_status istatus);
                     okk) r1 in
-                (* 2. bystanders: first those parked at a yield (new threads), then woken ones in any order *)
-                let rec proc (st : state) (pending : (string * mstatus) list) : state list =
+                (* 2. bystanders: first those parked at a yield (new threads), then woken ones in any order.  An actor
+                   that the implementation reports as blocked before AND after the release may have run from one
+                   blocking point to the next in between (it got the lock it waited for and now waits for the next
+                   one, or for its WaitGroup): such silent progress is searched for as well. *)
+                let rec proc (st : state) (pending : (string * mstatus) list) (fuel : int) : state list =
+                  if fuel = 0 then [] else
+                  let silent = List.filter_map (fun (tn, prog) ->
+                      match prog with
+                      | IYield _ :: _ | [] -> None
+                      | _ ->
+                        let nm = name_of tn in
+                        if nm <> name && enabled st tn && Hashtbl.find_opt istat nm = Some Blk && not (List.mem_assoc nm pending)
+                        then Some tn else None) st.threads in
+                  let via_silent () = List.concat_map (fun tn ->
+                      List.concat_map (fun (st', m) -> if m = Blk && st' != st then proc st' pending (fuel - 1) else [])
+                        (advance st tn false 200)) silent in
                   match pending with
-                  | [] -> [st]
+                  | [] -> if silent = [] then [st] else via_silent ()
                   | _ ->
-                    List.concat_map (fun (n, ist) ->
+                    let direct = List.concat_map (fun (n, ist) ->
                         let rest = List.filter (fun (n', _) -> n' <> n) pending in
                         match tname_of n with
                         | None -> why := "unknown bystander " ^ n; []
                         | Some bt ->
                           (match lookup_thr bt st.threads with
                            | Some (IYield p :: _) ->
-                             if ist = At (point_name p) then proc st rest
+                             if ist = At (point_name p) then proc st rest fuel
                              else (why := Printf.sprintf "bystander %s: model (at %s) impl %s" n (point_name p) (show_status ist); [])
                            | Some _ ->
                              let r = advance st bt false 200 in
@@ -245,22 +275,23 @@ let handle (x : sexp) : (string * string) list =
                                  let okk = m = ist && (m <> Blk || st' != st) in
                                  if not okk then why := Printf.sprintf "bystander %s: model %s impl %s" n (show_status m) (show_status ist);
                                  okk) r in
-                             List.concat_map (fun (st', _) -> proc st' rest) r
-                           | None -> why := Printf.sprintf "bystander %s %s: no such model thread" n (show_status ist); []))
+                             List.concat_map (fun (st', _) -> proc st' rest fuel) r
+                           | None ->
+                             if n = "hb" && ist = Fin then proc st rest fuel   (* the ticker re-parked; the model's tick had already ended *)
+                             else (why := Printf.sprintf "bystander %s %s: no such model thread" n (show_status ist); [])))
                       (match pending with
                        | _ -> (* try each entry first; parked ones are order independent, so only try the first parked one *)
                          let parked = List.filter (fun (n, _) -> match tname_of n with
                              | Some bt -> (match lookup_thr bt st.threads with Some (IYield _ :: _) -> true | _ -> false) | None -> true) pending in
                          (match parked with p :: _ -> [p] | [] -> pending)) in
-                let r2 = List.concat_map (fun (st1, _) -> proc st1 bystanders) r1 in
+                    if direct <> [] then direct else via_silent () in
+                let r2 = List.concat_map (fun (st1, _) -> proc st1 bystanders 8) r1 in
                 (* 3. nothing else may be able to move, every model thread is known to the implementation *)
                 let r3 = List.filter (fun (st2 : state) ->
                     List.for_all (fun (tn, prog) ->
                         match prog with
                         | IYield _ :: _ ->
-                          let nm = (match tn with TCl n -> "cl:" ^ string_of_int (ii n) | TSrc n -> "src:" ^ string_of_int (ii n)
-                                                | TSt n -> "st:" ^ string_of_int (ii n) | TCh n -> "ch:" ^ string_of_int (ii n)
-                                                | THb -> "hb" | TSh -> "sh") in
+                          let nm = name_of tn in
                           if List.mem nm !known then true else (why := "model thread " ^ nm ^ " unknown to the implementation"; false)
                         | _ -> if enabled st2 tn then (why := "a blocked implementation actor can move in the model"; false) else true)
                       st2.threads) r2 in
@@ -287,12 +318,17 @@ let handle (x : sexp) : (string * string) list =
     (* ---- spec checkers on the implementation's own log ---- *)
     let l = List.rev !impl_log in
     let sids = List.map (fun c -> ni c.sid) cfgs in
-    if not (no_write_after_completed_b l) then add_spec "C12:no_write_after_completed writer call after the subscriber was gone";
+    if not (no_write_after_completed_b l) then add_spec "C12:no_write_after_completed a writer call is entered, in progress or returns after completion was signalled";
     if not (completed_once_b l) then add_spec "C12:completed_once";
+    if not (writes_exclusive_b l) then add_spec "C12:writes_exclusive calls on one writer overlap (entries and returns do not alternate)";
     if not (delivery_lite_b (flt_of cfgs) ev_bad sids l) then add_spec "C12:delivery_order written events are not duplicate free / filtered";
+    (* fan-outs of one trigger are serial (subscribers grouped by their trigger key; events are pairwise distinct) *)
+    let keyof (s : nat) = match find_cfg cfgs (ii s) with Some c -> ni c.key | None -> ni 999 in
+    let keys = List.sort_uniq compare (List.map (fun c -> c.key) cfgs) in
+    if not (events_serial_b keyof (List.map ni keys) l) then
+      add_spec "C12:delivery_order fan-outs of one trigger interleave: after a Write of a later event B a subscriber of the same trigger is still written event A (no single emission order explains the writes)";
     if not (one_start_b l) then add_spec "C13:one_start_per_live_trigger two Start calls for one trigger";
-    (* cross-talk: an event written to s must come from an update on a trigger with the key of s *)
-    (* quiescence *)
+    (* ---- quiescence ---- *)
     let getf k = List.find_map (function L (A k' :: r) when k' = k -> Some r | _ -> None) final in
     let ints r = List.filter_map (function A a -> int_of_string_opt a | _ -> None) r in
     let sizes = match getf "sizes" with Some r -> (match ints r with [a; b; c] -> Some ((ni a, ni b), ni c) | _ -> None) | None -> None in
@@ -300,17 +336,29 @@ let handle (x : sexp) : (string * string) list =
     let unc = match getf "uncancelled" with Some r -> (match ints r with [n] -> n | _ -> -1) | None -> -1 in
     let last_status = Hashtbl.create 16 in
     let shutdown_started = ref false in
-    let added = ref [] in
+    let actor_op = Hashtbl.create 16 in          (* actor -> (kind, arg) of the client operation it runs *)
+    let actor_steps = Hashtbl.create 16 in       (* actor -> indices of the steps in which it was started / released (newest first) *)
+    let reg_step = Hashtbl.create 16 in          (* sid -> step at which its registration was reported (SubscriptionCountInc) *)
+    let idx = ref 0 in
     List.iter (function
         | L [what; status; L (A "obs" :: obs); L (A "ch" :: chs)] ->
-          (match what with
-           | L [A "start"; A n; L [A "shutdown"]] -> shutdown_started := true; Hashtbl.replace last_status n (parse_status status)
-           | L [A "start"; A n; _] | L [A "go"; A n] -> Hashtbl.replace last_status n (parse_status status)
-           | _ -> ());
+          incr idx;
+          let name = (match what with
+              | L [A "start"; A n; op] ->
+                (match op with
+                 | L [A "shutdown"] -> shutdown_started := true
+                 | L [A k; A a] -> Hashtbl.replace actor_op n (k, int_of_string a)
+                 | _ -> ());
+                n
+              | L [A "go"; A n] -> n
+              | _ -> "") in
+          Hashtbl.replace last_status name (parse_status status);
+          Hashtbl.replace actor_steps name (!idx :: (try Hashtbl.find actor_steps name with Not_found -> []));
           List.iter (function L [A n; stx] -> Hashtbl.replace last_status n (parse_status stx) | _ -> ()) chs;
-          List.iter (function L [A "subinc"; _] -> () | _ -> ()) obs
+          (match Hashtbl.find_opt actor_op name with
+           | Some ("sub", s) -> if List.exists (function L [A "subinc"; _] -> true | _ -> false) obs && not (Hashtbl.mem reg_step s) then Hashtbl.replace reg_step s !idx
+           | _ -> ())
         | _ -> ()) steps;
-    ignore added;
     (* teardown by a foreign source: cancels observed while an updater call of another instance ran *)
     let owner_of = Hashtbl.create 16 in
     let tsteps = List.filter_map (function
@@ -322,25 +370,94 @@ let handle (x : sexp) : (string * string) list =
           Some ((match Hashtbl.find_opt owner_of name with Some a -> Some (ni a) | None -> None), cs)
         | _ -> None) steps in
     if not (teardown_own_b tsteps) then add_spec "C13:teardown_has_cause a trigger context was cancelled by a call of another trigger's updater";
-    let all_done = Hashtbl.fold (fun n stt acc -> acc && (n = "hb" || stt = Fin)) last_status true in
-    let subinc = List.fold_left (fun a -> function OSubInc n -> a + ii n | _ -> a) 0 l in
-    let all_gone = List.for_all (fun c -> List.mem c.sid !gone || c.sync) cfgs || subinc = 0 in
+    (* The quiescence clauses need the premise of the theorems: nothing can move any more, and the resolver was shut
+       down or every registered subscriber was asked to leave by its client or the source of ITS trigger said Done /
+       failed to start.  "Asked by the client" is read off the schedule (the removal region of an unsubscribe /
+       removeClient / context cancel ran after the registration); "its trigger ended" (and removals through the
+       flush / heartbeat / hook failure paths) are read off the LTS replay of the prefix of the run on which model
+       and implementation agree -- membership of a subscriber in a trigger instance is not observable otherwise.
+       The clauses themselves are evaluated on the implementation's observables only. *)
+    let registered = Hashtbl.fold (fun s _ acc -> s :: acc) reg_step [] in
+    let region_step name = match (try List.rev (Hashtbl.find actor_steps name) with Not_found -> []) with
+      | _ :: second :: _ -> Some second | _ -> None in
+    let asked_impl s =
+      match find_cfg cfgs s with
+      | None -> false
+      | Some c ->
+        let rs = try Hashtbl.find reg_step s with Not_found -> max_int in
+        Hashtbl.fold (fun name (k, a) acc ->
+            acc ||
+            (match k with
+             | "unsub" when a = s -> (match region_step name with Some i -> i > rs && Hashtbl.find_opt last_status name = Some Fin | None -> false)
+             | "rmclient" when a = c.conn && not c.sync -> (match region_step name with Some i -> i > rs && Hashtbl.find_opt last_status name = Some Fin | None -> false)
+             | "cancelctx" when a = s && c.sync -> Hashtbl.find_opt last_status name = Some Fin
+             | _ -> false)) actor_op false in
+    let pre_model s =
+      List.exists (fun (st : state) ->
+          List.mem (ni s) st.allsubs &&
+          List.exists (function GLeft s' -> ii s' = s | GEnd t -> t = (st.subs (ni s)).s_tid | _ -> false) st.log) !alts in
     let shut_done = !shutdown_started && (match Hashtbl.find_opt last_status "sh" with Some Fin -> true | _ -> false) in
-    let quiescent = (not stuck) && all_done && (shut_done || all_gone) in
-    (if quiescent then
-       match sizes with
-       | Some sz ->
-         if not (quiescent_ok_b sz l) then begin
+    let none_parked = Hashtbl.fold (fun n stt acc -> acc && (n = "hb" || n = "" || (match stt with At _ -> false | _ -> true))) last_status true in
+    let quiescent = (not stuck) && none_parked && (shut_done || List.for_all (fun s -> asked_impl s || pre_model s) registered) in
+    (if quiescent then begin
+        (* every subscriber completed: nobody is left blocked; a synchronous subscriber has returned *)
+        Hashtbl.iter (fun n stt ->
+            if n <> "hb" && n <> "" && stt = Blk then
+              (match Hashtbl.find_opt actor_op n with
+               | Some ("sub", s) -> add_spec (Printf.sprintf "C13:every_subscriber_completed subscriber %d is still waiting for its completion at quiescence" s)
+               | _ -> add_spec (Printf.sprintf "C13:every_subscriber_completed actor %s is blocked forever at quiescence" n))) last_status;
+        let sync_reg = List.filter (fun s -> match find_cfg cfgs s with Some c -> c.sync | None -> false) registered in
+        if not shut_done && not (all_completed_b (List.map ni sync_reg) l) then
+          add_spec "C13:every_subscriber_completed a synchronous subscriber was never completed";
+        (match sizes with
+         | Some sz ->
            let ((a, b), c) = sz in
            if (ii a, ii b, ii c) <> (0, 0, 0) then add_spec (Printf.sprintf "C13:registry_empty sizes=(%d %d %d) at quiescence" (ii a) (ii b) (ii c));
            if not (counters_balanced_b l) then add_spec "C13:counters_balanced Inc/Dec sums differ at quiescence";
-           if not (all_started_cancelled_b l) then add_spec "C13:all_trigger_ctx_cancelled a started trigger context is still live at quiescence"
-         end;
-         if unc > 0 then add_spec "C13:all_trigger_ctx_cancelled a started trigger context is still live at quiescence"
-       | None -> ());
+           if not (all_started_cancelled_b l) || unc > 0 then add_spec "C13:all_trigger_ctx_cancelled a started trigger context is still live at quiescence";
+           ignore (quiescent_ok_b sz l)
+         | None -> ())
+      end);
     let res = List.rev !result @ List.map (fun s -> ("specfail", s)) (List.rev !specfails) in
     ignore scn; ignore ch;
     if res = [] then [("ok", (if !nontrivial then "nt" else "tr") ^ (if quiescent then " q" else " nq"))] else res
+  (* ---- trigger identity on the real SubscriptionSource / prepareTrigger (C13 shared_iff_same_key) ---- *)
+  | L (A "identset" :: obs) ->
+    let tbl = Hashtbl.create 64 in
+    let intern (k : string) (v : string) : nat =
+      match Hashtbl.find_opt tbl (k, v) with
+      | Some n -> ni n
+      | None -> let n = Hashtbl.length tbl in Hashtbl.replace tbl (k, v) n; ni n in
+    let items = List.filter_map (function
+        | L [A "obs"; S name; S input; A hh; A id] -> Some (name, ((intern "i" input, intern "h" hh), intern "d" id))
+        | _ -> None) obs in
+    if ident_ok_b (List.map snd items) then [("ok", Printf.sprintf "nt q ident specs=%d" (List.length items))]
+    else begin
+      let bad = ref [] in
+      List.iter (fun (n1, o1) -> List.iter (fun (n2, o2) ->
+          if n1 < n2 && not (ident_ok_b [o1; o2]) then
+            bad := (if snd o1 = snd o2 then Printf.sprintf "%s and %s have DIFFERENT rendered (input, headers) but the SAME trigger id" n1 n2
+                    else Printf.sprintf "%s and %s have the SAME rendered (input, headers) but DIFFERENT trigger ids" n1 n2) :: !bad) items) items;
+      [("specfail", "C13:shared_iff_same_key trigger id is not injective / not a function of the rendered input and headers hash: "
+                    ^ String.concat "; " (take 4 (List.rev !bad)))]
+    end
+  | L [A "identpair"; S comp; L [A "a"; S na; S ia; A ha; A ida]; L [A "b"; S nb; S ib; A hb; A idb];
+       L [A "starts"; A n]; L [A "cross"; A k]] ->
+    let same_render = (ia = ib && ha = hb) in
+    let shared = (int_of_string n = 1) in
+    let o x = ni (if x then 0 else 1) in
+    let res = ref [] in
+    if not (ident_ok_b [((ni 0, ni 0), ni 0); ((o (ia = ib), o (ha = hb)), o (ida = idb))]) then
+      res := ("specfail", Printf.sprintf "C13:shared_iff_same_key %s / %s (differ in: %s): trigger ids %s although rendered (input, headers) %s"
+                na nb comp (if ida = idb then "equal" else "differ") (if same_render then "are equal" else "differ")) :: !res;
+    if shared && not same_render then
+      res := ("specfail", Printf.sprintf "C13:shared_iff_same_key %s and %s differ in %s but share ONE upstream subscription (Start called once for two different inputs)" na nb comp) :: !res;
+    if (not shared) && same_render then
+      res := ("specfail", Printf.sprintf "C13:shared_iff_same_key %s and %s have the same rendered input and headers but %s upstream subscriptions were opened" na nb n) :: !res;
+    if int_of_string k > 0 then
+      res := ("specfail", Printf.sprintf "C13:shared_iff_same_key cross-talk: %s / %s (differ in %s) received %s message(s) of the other upstream" na nb comp k) :: !res;
+    if !res = [] then [("ok", "nt q identpair " ^ comp)] else List.rev !res
+  | L (A "identerr" :: r) -> [("error", "ident harness: " ^ String.concat " " (List.map print_sexp r))]
   | _ -> [("error", "unrecognised case")]
 
 let () = run_lines Sys.argv.(1) Sys.argv.(2) handle
